@@ -169,6 +169,7 @@ def main(argv=None):
     byname = {h.name: h for h in hs}
     findings = load_findings()
     n_obl = n_dis = n_known = 0
+    n_bounded = n_bounded_ok = 0
     violations = []
     undecided = []
     crashes = []
@@ -195,11 +196,19 @@ def main(argv=None):
                 if r['status'] == 'covered':
                     hcov += 1
                 continue
-            n_obl += 1
+            is_proof = (h.kind == 'proof')
+            if is_proof:
+                n_obl += 1
+            else:
+                n_bounded += 1
             ho += 1
-            by_backend[r['backend']] = by_backend.get(r['backend'], 0) + (1 if r['status'] == 'proved' else 0)
+            if is_proof:
+                by_backend[r['backend']] = by_backend.get(r['backend'], 0) + (1 if r['status'] == 'proved' else 0)
             if r['status'] == 'proved':
-                n_dis += 1
+                if is_proof:
+                    n_dis += 1
+                else:
+                    n_bounded_ok += 1
                 hd += 1
                 if len(samples) < 6 and r['backend'] != 'trivial':
                     samples.append(dict(harness=h.name, obligation=r['name'], path=r['path'], status='proved',
@@ -250,19 +259,19 @@ def main(argv=None):
     for u in undecided[:40]:
         print('UNDECIDED:', u[:600])
     wall = time.time() - t0
-    print('property %s tier %s: %d obligations, %d discharged, %d known-finding, %d violations, %d undecided, %d harnesses, %.1fs (solver %.1fs)'
-          % (a.prop, a.tier, n_obl, n_dis, n_known, len(violations), len(undecided), len(hs), wall, solver_time))
+    print('property %s tier %s: %d obligations, %d discharged, %d known-finding, %d violations, %d undecided, %d harnesses, %.1fs (solver %.1fs); bounded stand-ins (not counted): %d/%d'
+          % (a.prop, a.tier, n_obl, n_dis, n_known, len(violations), len(undecided), len(hs), wall, solver_time, n_bounded_ok, n_bounded))
     if a.v:
         for ph in per_harness:
             print('  ', ph)
     if not a.no_evidence and not a.only:
         write_evidence(a, hs, n_obl, n_dis, n_known, violations, undecided, crashes, samples, by_backend, solver_time,
-                       functions, files, dropped, per_harness, wall, seed, known_lines, vio_docs)
+                       functions, files, dropped, per_harness, wall, seed, known_lines, vio_docs, n_bounded, n_bounded_ok)
     return status
 
 
 def write_evidence(a, hs, n_obl, n_dis, n_known, violations, undecided, crashes, samples, by_backend, solver_time,
-                   functions, files, dropped, per_harness, wall, seed, known_lines, vio_docs):
+                   functions, files, dropped, per_harness, wall, seed, known_lines, vio_docs, n_bounded=0, n_bounded_ok=0):
     man = json.load(open(os.path.join(ROOT, 'MANIFEST.json')))
     level = 'proof'
     note = ''
@@ -294,7 +303,7 @@ def write_evidence(a, hs, n_obl, n_dis, n_known, violations, undecided, crashes,
                         'every (clause, path) pair is one query. %s' % note,
             by_backend=by_backend, solver_time_s=round(solver_time, 2),
             functions_under_contract=sorted(functions), function_ast_hashes=functions, source_sha256=files,
-            harnesses=per_harness, bounded_standins=bounded, undecided=undecided[:50], checker_errors=crashes[:10],
+            harnesses=per_harness, bounded_standins=bounded, bounded_obligations=n_bounded, bounded_passed=n_bounded_ok, undecided=undecided[:50], checker_errors=crashes[:10],
             known_findings_reported=sorted(set(known_lines)), violations=vio_docs,
         ),
         assumptions=assumptions, wall_s=round(wall, 2), violations=len(violations))
